@@ -195,8 +195,9 @@ def check_value(sh, value, desc, cfg, stylename, style):
 
 
 # ------------------------------------------------------------------ documents
-LABELS = ['T:NAME_FUNCTION', 'T:LITERAL_STRING', 'T:COMMENT_SINGLE', 'T:NUMBER_INT', 'X:comment', 'X:object']
-_objs = {'X:comment': CommentAnnotation('c'), 'X:object': ('arbitrary', 'annotation')}
+LABELS = ['T:NAME_FUNCTION', 'T:LITERAL_STRING', 'T:COMMENT_SINGLE', 'T:NUMBER_INT', 'X:comment', 'X:object', 'X:int13', 'X:true', 'X:float3']
+# non-token annotations that are EQUAL to a token number without being a token (Token is an IntEnum): they must not be styled
+_objs = {'X:comment': CommentAnnotation('c'), 'X:object': ('arbitrary', 'annotation'), 'X:int13': 13, 'X:true': True, 'X:float3': 3.0}
 
 
 def ann_obj(label):
